@@ -34,7 +34,7 @@ def mutants_table():
     for f in glob.glob('evidence/C*.json'):
         m = json.load(open(f))['coverage'].get('mutants')
         if m:
-            for r in m['results']: status[r['id']] = r['status']
+            for r in (m.get('results') or []): status[r['id']] = r['status']
     out = ['| mutant | rule expected to fire | the edit (still compiles) | last thorough run |', '|---|---|---|---|']
     n = 0
     for f in sorted(glob.glob('mutants/*/*.mut')):
